@@ -547,6 +547,33 @@ def rule_pgmember(ctx) -> RuleResult:
             if not checked:
                 res.find("PropertyGroup", fn.prop or fn.name, "stores _properties without a membership test against parent.children", f"{fn.module.relpath}:{a.lineno}",
                          "a uid that is not a child of the group's object can be listed in 'Properties' and is written to the file")
+    # copies: the members handed to the property group of a COPY are the copies of the source's members — on every path they come through
+    # the table of copied children (uid of a source child -> uid of its copy under the new object); a uid of the source group handed
+    # over as it is names a data that is not a child of the new object whenever the copy could not keep the source's identifiers
+    cp = p.cls("Workspace").methods.get("copy_property_groups")
+    if cp is None:
+        raise AnalysisError("anchor Workspace.copy_property_groups not found")
+    cpv = ctx.view(cp)
+    cparams = [x for x in cp.params if x not in ("self", "cls")]
+    iterated = {x.id for lp in ast.walk(cpv.node) if isinstance(lp, (ast.For, ast.comprehension)) for x in [lp.iter] if isinstance(x, ast.Name)}
+    receivers = {c.func.value.id for c in ast.walk(cpv.node) if isinstance(c, ast.Call) and isinstance(c.func, ast.Attribute) and isinstance(c.func.value, ast.Name)
+                 and "property_group" in c.func.attr}
+    tables = [x for x in cparams if x not in iterated and x not in receivers]
+    if len(tables) != 1 or len(cparams) < 3:
+        raise AnalysisError(f"Workspace.copy_property_groups: the table of copied children is not identified among the parameters {cparams}")
+    mm = Members(cpv, maps=tables)
+    handed = mm.handed_over("properties")
+    if not handed:
+        raise AnalysisError("Workspace.copy_property_groups: no `properties` handed to the new property group found")
+    bad = [x for x, unverified in handed if unverified]
+    ok = not bad
+    res.inst(f"Workspace.copy_property_groups: the members of the new group come through the table of copied children `{tables[0]}` on every path ({len(handed)} hand-over(s))",
+             nontrivial=True, ok=ok)
+    if not ok:
+        res.find("Workspace", "copy_property_groups", "members of the source group handed to the copy without translation through the table of copied children",
+                 f"{cp.module.relpath}:{(bad[0] if bad else cp.node).lineno}",
+                 "when the copy could not keep the identifiers of the source (they are taken in the target workspace) its property group lists the source's "
+                 "uids: data that are not children of the copied object")
     # remove_properties: whatever is compared with / removed from the uid list is a uid, also when the caller passed Data objects.
     # Abstract interpretation over the CFG: RAW = the locals that may still hold a Data element on some feasible path
     # (isinstance(<raw>, Data) is known True, every other condition is left open).
